@@ -63,7 +63,17 @@ def shapes(tier):
                  b"|x = 1\n", b'"m=t|" = 1\n', b'm t { }\n"m=0|x" = 1\n', b'"m=4294967296|x" = 1\n', b'"m=-1|x" = 1\n', b'"m=|x" = 1\n', b'"m==|x" = 1\n',
                  b'"sec=0|x" = 1\n', b'"i|x" = 1\n', b'"m=\'' + b"\\\\'" * 200 + b'\'|x" = 1\n'):
         s.append(("path_name", frag))
+    # include files that are not brace-balanced: they close the section they were included from, open it (or another
+    # instance of the same title) again, leave a section open for the includer to close, or close one too many
+    for frag in (b'm t { include("reopen_m.conf") }\n', b'm t { include("reopen_m.conf") } m t { include("reopen_m.conf") x = 5 }\n',
+                 b'u a { include("reopen_u.conf") }\n', b'sec { include("close.conf")\ni = 2\n', b'include("open_sec.conf") x = 3 }\ni = 4\n',
+                 b'n { inner q { include("reopen_inner.conf") } }\n', b'm t { include("close.conf") m t { include("close.conf") i = 1\n',
+                 b'include("open_sec.conf")\n', b'sec { include("close.conf") }\n', b'm t { x = 1 include("reopen_m.conf") x = 9 } m t { }\n'):
+        s.append(("unbalanced_include", frag))
     return s
+
+UNBALANCED_FILES = [("reopen_m.conf", b"x = 1 }\nm t { x = 2\n"), ("reopen_u.conf", b"x = 1 }\nu b { x = 2 }\nu c {\n"), ("close.conf", b"}\n"),
+                    ("open_sec.conf", b"sec {\n"), ("reopen_inner.conf", b"z = 2 }\ninner q { zl += { b }\n")]
 
 
 def generate(rng, tier):
@@ -77,6 +87,7 @@ def generate(rng, tier):
         nonlocal n
         cdir = "%s/z%d" % (root, n)
         lines = schema_lines(opts) + ["CWD " + hx(cdir), "FILE %s reg %s" % (hx("self.conf"), hx(b'include("self.conf")\n')),
+                                      ] + (["FILE %s reg %s" % (hx(nm), hx(c)) for nm, c in UNBALANCED_FILES] if kind == "unbalanced_include" else []) + [
                                       "ENV %s %s" % (hx("X"), hx(b"x\"}{")), "X 0 %d" % flags]
         nul = b"\x00" in text
         if n % 3 == 0:
